@@ -29,6 +29,7 @@ import (
 	"sync"
 
 	api "k8s.io/api/core/v1"
+	discoveryv1 "k8s.io/api/discovery/v1"
 	networking "k8s.io/api/networking/v1"
 	"sigs.k8s.io/controller-runtime/pkg/client"
 	gatewayv1 "sigs.k8s.io/gateway-api/apis/v1"
@@ -379,6 +380,29 @@ func classify(c ocase, diff []string) string {
 			}
 		}
 	}
+	// EndpointSlices: one address in two slices of a service
+	if c.opts.EndpointSlices {
+		addrs := map[string]map[string]bool{}
+		for _, o := range all {
+			if sl, ok := o.(*discoveryv1.EndpointSlice); ok {
+				svc := sl.Namespace + "/" + sl.Labels["kubernetes.io/service-name"]
+				for _, ep := range sl.Endpoints {
+					for _, a := range ep.Addresses {
+						k := svc + " " + a
+						if addrs[k] == nil {
+							addrs[k] = map[string]bool{}
+						}
+						addrs[k][sl.Name] = true
+					}
+				}
+			}
+		}
+		for _, sls := range addrs {
+			if len(sls) > 1 {
+				return "C06/endpointslices-duplicate-address"
+			}
+		}
+	}
 	// gateway api: routes of one kind created in the same second in different namespaces
 	if strings.Contains(text, "__rule") || strings.Contains(text, "_tcprule") {
 		type rid struct{ kind, ns, name, stamp string }
@@ -483,6 +507,17 @@ func describe(c ocase) string {
 		if ing, ok := o.(*networking.Ingress); ok {
 			s += fmt.Sprintf(" stamp=%d hosts=%v", ing.CreationTimestamp.Unix(), hostsOf(ing))
 		}
+		if sl, ok := o.(*discoveryv1.EndpointSlice); ok {
+			var eps []string
+			for _, ep := range sl.Endpoints {
+				r := "ready?"
+				if ep.Conditions.Ready != nil {
+					r = fmt.Sprintf("ready=%v", *ep.Conditions.Ready)
+				}
+				eps = append(eps, strings.Join(ep.Addresses, ",")+" "+r)
+			}
+			s += fmt.Sprintf(" ports=%d [%s]", len(sl.Ports), strings.Join(eps, "; "))
+		}
 		if rt, ok := o.(*gatewayv1alpha2.TCPRoute); ok {
 			s += fmt.Sprintf(" stamp=%d parents=%d", rt.CreationTimestamp.Unix(), len(rt.Spec.ParentRefs))
 		}
@@ -527,6 +562,29 @@ func genCase(rng *rand.Rand, i int, withBatch bool) ocase {
 	if i%5 == 2 {
 		// ingresses created in the same second whose namespace / name stress the tie-break
 		objs = append(objs, c06.GenAdversarial(rng, 2+rng.Intn(4))...)
+	}
+	if i%6 == 1 {
+		// the endpoints come from EndpointSlices: 1..3 per service, overlapping addresses
+		c.opts.EndpointSlices = true
+		objs = append(objs, c06.GenSlices(rng, objs)...)
+		if rng.Intn(2) == 0 {
+			found := false
+			for _, ob := range objs {
+				if cm, ok := ob.(*api.ConfigMap); ok && cm.Namespace == "ingress-controller" && cm.Name == "haproxy-ingress" {
+					if cm.Data == nil {
+						cm.Data = map[string]string{}
+					}
+					cm.Data["drain-support"] = "true"
+					found = true
+				}
+			}
+			if !found {
+				cm := &api.ConfigMap{}
+				cm.Namespace, cm.Name = "ingress-controller", "haproxy-ingress"
+				cm.Data = map[string]string{"drain-support": "true"}
+				objs = append(objs, cm)
+			}
+		}
 	}
 	// the generators may name the same object twice (services of the adversarial
 	// namespaces): one object per key, the first one
